@@ -433,6 +433,21 @@ where
             })
     }
 
+    /// Consume the trailing bytes of a value
+    /// whose declared length is not a multiple of the sample size,
+    /// so that the source stays aligned with the declared length.
+    fn skip_trailing_bytes(&mut self, count: usize) -> Result<()> {
+        if count > 0 {
+            let mut buf = [0u8; 8];
+            self.from
+                .read_exact(&mut buf[..count])
+                .context(ReadValueDataSnafu {
+                    position: self.position,
+                })?;
+        }
+        Ok(())
+    }
+
     fn read_value_tag(&mut self, header: &DataElementHeader) -> Result<PrimitiveValue> {
         let len = self.require_known_length(header)?;
 
@@ -447,6 +462,7 @@ where
                     })
             })
             .collect();
+        self.skip_trailing_bytes(len & 3)?;
         self.position += len as u64;
         Ok(PrimitiveValue::Tags(parts?))
     }
@@ -539,6 +555,7 @@ where
                 position: self.position,
             })?;
 
+        self.skip_trailing_bytes(len & 1)?;
         self.position += len as u64;
         Ok(PrimitiveValue::I16(vec))
     }
@@ -553,6 +570,7 @@ where
             .context(ReadValueDataSnafu {
                 position: self.position,
             })?;
+        self.skip_trailing_bytes(len & 3)?;
         self.position += len as u64;
         Ok(PrimitiveValue::F32(vec))
     }
@@ -746,6 +764,7 @@ where
             .context(ReadValueDataSnafu {
                 position: self.position,
             })?;
+        self.skip_trailing_bytes(len & 7)?;
         self.position += len as u64;
         Ok(PrimitiveValue::F64(vec))
     }
@@ -761,6 +780,7 @@ where
             .context(ReadValueDataSnafu {
                 position: self.position,
             })?;
+        self.skip_trailing_bytes(len & 3)?;
         self.position += len as u64;
         Ok(PrimitiveValue::U32(vec))
     }
@@ -790,6 +810,7 @@ where
                 position: self.position,
             })?;
 
+        self.skip_trailing_bytes(len & 1)?;
         self.position += len as u64;
 
         if header.tag == Tag(0x0028, 0x0103) {
@@ -811,6 +832,7 @@ where
             .context(ReadValueDataSnafu {
                 position: self.position,
             })?;
+        self.skip_trailing_bytes(len & 7)?;
         self.position += len as u64;
         Ok(PrimitiveValue::U64(vec))
     }
@@ -826,6 +848,7 @@ where
             .context(ReadValueDataSnafu {
                 position: self.position,
             })?;
+        self.skip_trailing_bytes(len & 3)?;
         self.position += len as u64;
         Ok(PrimitiveValue::I32(vec))
     }
@@ -841,6 +864,7 @@ where
             .context(ReadValueDataSnafu {
                 position: self.position,
             })?;
+        self.skip_trailing_bytes(len & 7)?;
         self.position += len as u64;
         Ok(PrimitiveValue::I64(vec))
     }
